@@ -13,4 +13,4 @@ CONSTANTS
   MaxCompact = 1
 CONSTRAINT Bound
 VIEW View
-INVARIANTS Laws Convergence
+INVARIANTS Laws Growing Convergence
